@@ -11,6 +11,9 @@ pub struct Dependency {
 #[derive(Debug, Clone, Copy, PartialEq, Eq, Hash)]
 pub enum NodeKind {
     Source(Key),
+    /// A source that was looked up and found to be absent. The dependency
+    /// changes once a source with this key exists.
+    AbsentSource(Key),
     Derived(DerivedNodeId),
 }
 
